@@ -13,6 +13,8 @@ per (property, key): number of evaluations, worst error, tolerance, and the firs
     integrate  C19  Behavior.Integrate: arguments untouched, outputs finite where converged, p never decreases
     fearray    C12  FeArray @ / dot / ddot between two fields: the pointwise product at sampled (element, point) pairs
     timestep   C05  every solve under a time scheme: stored rates follow the documented scheme; equation of motion on free dofs (linear kinds)
+    results    C16  displacement components / norm are those of the solution held; stress-like results come per node or per element as asked
+    loads      C09  constant distributed loads on straight-sided linear elements: added nodal forces sum to intensity x measure (x thickness)
     location   C08  reference coordinates returned by the point location reproduce the query point through the element's own map
     phasefield C17  split parts finite and adding up to the undamaged stress / energy; history energy / damage monotone between saved steps
     history    C15  stored iterations keep the digest they were saved with; the entry just saved holds the live primary fields
@@ -817,13 +819,149 @@ def install_perturb(prob=0.5, rel=1e-6):
     _Simu._Solver_Solve_problemType = solve
 
 
+# ------------------------------------------------------------------------------------------
+def install_loads():
+    """Distributed loads entered with CONSTANT intensities on straight-sided linear elements: the nodal forces the call adds
+    sum, per unknown, to intensity x measure of the loaded region (x thickness where the call applies it); the measure is
+    taken from the vertices of the elements whose nodes are all selected, with the harness' own geometry."""
+    from EasyFEA.Simulations._simu import _Simu
+
+    from ..ref import geometry as geo
+
+    LINEAR = {"SEG2", "TRI3", "QUAD4", "TETRA4", "HEXA8", "PRISM6"}
+
+    def wrap(name, ldim_of, factor_of):
+        orig = getattr(_Simu, name)
+
+        @guarded("loads")
+        def look(simu, before, nodes, values, unknowns, problemType):
+            kind = type(simu).__name__
+            if kind == "Beam":
+                return
+            pt = problemType if problemType is not None else simu.problemType
+            mesh = simu.mesh
+            ldim = ldim_of(mesh.dim)
+            nodes = np.unique(np.asarray(nodes, int))
+            sel = np.zeros(mesh.Nn, bool)
+            sel[nodes] = True
+            measure = 0.0
+            for g in mesh.Get_list_groupElem(ldim):
+                if g.elemType.name not in LINEAR:
+                    return
+                el = np.where(sel[g.connect].all(axis=1))[0]
+                if el.size == 0:
+                    continue
+                if g.elemType.name == "QUAD4":
+                    V = mesh.coord[g.connect[el]]
+                    nrm = np.cross(V[:, 1] - V[:, 0], V[:, 2] - V[:, 0])
+                    off = np.abs(np.einsum("ei,ei->e", nrm, V[:, 3] - V[:, 0])) / (np.linalg.norm(nrm, axis=1) ** 1.5 + 1e-300)
+                    if off.max() > 1e-9:
+                        return  # warped faces: the vertex formula is not the area of the bilinear surface
+                measure += float(geo.element_measures(g.elemType.name, mesh.coord, g.connect[el]).sum())
+            after = np.asarray(simu.Bc_vector_Neumann(pt), float)
+            d = after - before
+            dof_n = simu.Get_dof_n(pt)
+            all_un = list(simu.Get_unknowns(pt))
+            th = float(getattr(simu.model, "thickness", 1.0))
+            fac = factor_of(mesh.dim, th)
+            for val, un in zip(values, unknowns):
+                if not isinstance(val, (int, float)) or isinstance(val, bool):
+                    continue
+                tot = float(d[all_un.index(un)::dof_n].sum())
+                want = float(val) * measure * fac
+                sc = abs(float(val)) * max(measure, 1e-300) * fac + 1e-300
+                LOG.check("C09", "resultant-force", f"C09/suite/{name}/{kind}/{mesh.dim}D", abs(tot - want) / sc, 1e-9, value=float(val), measure=measure, factor=fac,
+                          got=tot, n_nodes=int(nodes.size))
+
+        def method(simu, nodes, values, unknowns, problemType=None, description=""):
+            if _inside[0]:
+                return orig(simu, nodes, values, unknowns, problemType, description)
+            before = None
+            try:
+                _inside[0] += 1
+                pt = problemType if problemType is not None else simu.problemType
+                before = np.asarray(simu.Bc_vector_Neumann(pt), float).copy()
+            except Exception:  # noqa: BLE001
+                before = None
+            finally:
+                _inside[0] -= 1
+            out = orig(simu, nodes, values, unknowns, problemType, description)
+            if before is not None and len(np.atleast_1d(nodes)) and len(values) == len(unknowns):
+                LOG.call("loads-" + name)
+                look(simu, before, nodes, values, unknowns, problemType)
+            return out
+
+        setattr(_Simu, name, method)
+
+    wrap("add_lineLoad", lambda dim: 1, lambda dim, th: 1.0)
+    wrap("add_surfLoad", lambda dim: 1 if dim == 2 else 2, lambda dim, th: th if dim == 2 else 1.0)
+    wrap("add_volumeLoad", lambda dim: dim, lambda dim, th: th if dim == 2 else 1.0)
+
+
+# ------------------------------------------------------------------------------------------
+def install_results():
+    """Named results as any caller gets them: a displacement component is the corresponding column of the solution the simulation
+    holds, the displacement norm is its row norm, and a stress / strain component, an equivalent value or an element-wise energy
+    comes as one value per node when asked at nodes and one per element when asked at elements."""
+    import EasyFEA.Simulations as S
+
+    classes = [getattr(S, n) for n in ("Elastic", "Thermal", "Beam", "WeakForms", "PhaseField", "HyperElastic", "InElastic") if hasattr(S, n)]
+    comp = {"ux": 0, "uy": 1, "uz": 2}
+    tensorlike = {"Svm", "Evm", "Wdef_e", "ZZ1_e"} | {a + b for a in "SE" for b in ("xx", "yy", "zz", "yz", "xz", "xy")}
+
+    def wrap(cls):
+        orig = cls.__dict__.get("Result")
+        if orig is None:
+            return
+
+        @guarded("results")
+        def look(simu, name, nodeValues, it, out):
+            if out is None or it is not None:
+                return
+            kind = type(simu).__name__
+            mesh = simu.mesh
+            Nn, Ne = mesh.Nn, mesh.Ne
+            arr = np.asarray(out)
+            k = f"C16/suite/{kind}"
+            if name in comp and nodeValues and kind != "WeakForms":
+                pt = simu.ProblemTypes.elastic if kind == "PhaseField" else simu.problemType
+                dof_n = simu.Get_dof_n(pt)
+                U = np.asarray(simu._Get_u_n(pt), float).reshape(Nn, dof_n)
+                if comp[name] < dof_n and arr.shape == (Nn,):
+                    sc = np.abs(U).max() + 1e-300
+                    LOG.check("C16", "component", k + "/displacement-component", float(np.abs(arr - U[:, comp[name]]).max() / sc), 1e-12, name=name)
+            if name == "displacement_norm" and nodeValues and kind not in ("WeakForms", "Thermal", "Beam"):
+                pt = simu.ProblemTypes.elastic if kind == "PhaseField" else simu.problemType
+                dof_n = simu.Get_dof_n(pt)
+                U = np.asarray(simu._Get_u_n(pt), float).reshape(Nn, dof_n)
+                if arr.shape == (Nn,):
+                    LOG.check("C16", "component", k + "/displacement-norm", float(np.abs(arr - np.linalg.norm(U, axis=1)).max() / (np.abs(U).max() + 1e-300)), 1e-12)
+            if name in tensorlike and arr.ndim >= 1 and arr.size > 1:
+                want = Nn if (nodeValues and not name.endswith("_e")) else Ne
+                suffix = "@size-collision" if (Nn % Ne == 0 or Ne % Nn == 0) else ""
+                LOG.check("C16", "conversion", k + "/values-per-node-or-element" + suffix, 0.0 if arr.shape[0] == want else np.inf, 0.0, name=name, nodeValues=bool(nodeValues),
+                          shape=list(arr.shape), Nn=Nn, Ne=Ne)
+
+        def Result(self, result, nodeValues=True, iter=None, *a, **kw):
+            out = orig(self, result, nodeValues, iter, *a, **kw)
+            if not _inside[0]:
+                LOG.call("result-calls")
+                look(self, result, nodeValues, iter, out)
+            return out
+
+        cls.Result = Result
+
+    for c in classes:
+        wrap(c)
+
+
 INSTALLERS = {"law": install_law, "assembly": install_assembly, "bc": install_bc, "stale": install_stale, "integrate": install_integrate,
-              "fearray": install_fearray, "timestep": install_timestep, "history": install_history, "phasefield": install_phasefield, "location": install_location, "perturb": install_perturb}
+              "fearray": install_fearray, "timestep": install_timestep, "history": install_history, "phasefield": install_phasefield, "location": install_location, "perturb": install_perturb, "loads": install_loads, "results": install_results}
 
 
 def install(names, out_path):
     # order matters: 'stale' counts assemblies through whatever wraps Assembly before it
-    for n in ["perturb", "law", "assembly", "bc", "timestep", "integrate", "fearray", "phasefield", "location", "history", "stale"]:
+    for n in ["perturb", "law", "assembly", "bc", "timestep", "integrate", "fearray", "phasefield", "location", "loads", "results", "history", "stale"]:
         if n in names:
             try:
                 INSTALLERS[n]()
